@@ -58,17 +58,20 @@ PROBES = ["switch_inside_mkdir_window", "crash_between_wrapper_cpp_writes", "tor
           "ascii_locale_nonascii_input", "task_restarted", "shared_matlab_outdir",
           "submodule_stem_with_dot_i", "submodule_h_extension", "cwd_is_source_dir",
           "crash_in_open_write_window", "second_run_over_existing_outputs",
-          "mkdir_race_lost_after_isdir_false", "xml_store_changed_between_calls"]
+          "mkdir_race_lost_after_isdir_false", "xml_store_changed_between_calls", "hashseed_varied_build",
+          "hashseed_build_with_2plus_submodules"]
 
 
 def batches(tier):
     if tier == "thorough":
         return [dict(name="build", runs=40000, budget_s=700, per_run_timeout=180),
                 dict(name="history", runs=20000, budget_s=350, per_run_timeout=180),
-                dict(name="config", runs=1500, budget_s=300, per_run_timeout=240)]
+                dict(name="config", runs=1500, budget_s=250, per_run_timeout=240),
+                dict(name="seeds", runs=3000, budget_s=250, per_run_timeout=240)]
     return [dict(name="build", runs=320, budget_s=45, per_run_timeout=120),
             dict(name="history", runs=220, budget_s=25, per_run_timeout=120),
-            dict(name="config", runs=20, budget_s=25, per_run_timeout=180)]
+            dict(name="config", runs=20, budget_s=25, per_run_timeout=180),
+            dict(name="seeds", runs=64, budget_s=25, per_run_timeout=180)]
 
 
 def describe():
@@ -891,10 +894,11 @@ def run_config(tape, ctx):
         ml_text = G.render(lex2, tape)
         py_src = os.path.join(srcd, "main.i")
         sub_src = os.path.join(srcd, tape.pick(["sub.i", "part.two.i"], "sub-name"))
+        more_subs = [os.path.join(srcd, n) for n in ["geometry.i", "slam.i", "nav.i"][:tape.choose(4, "n-more-subs")]]
         ml_src = os.path.join(srcd, "tool.i")
         tpl = os.path.join(srcd, "m.tpl")
-        for p, t in ((py_src, py_text), (sub_src, py_text), (ml_src, ml_text),
-                     (tpl, TEMPLATES[tape.weighted([3, 2, 2], "tpl")])):
+        for p, t in [(py_src, py_text), (sub_src, py_text), (ml_src, ml_text),
+                     (tpl, TEMPLATES[tape.weighted([3, 2, 2], "tpl")])] + [(q, "class X {};\n") for q in more_subs]:
             with open(p, "w", encoding="utf-8") as f:
                 f.write(t)
         boost = tape.bool(0.3, "boost")
@@ -926,7 +930,8 @@ def run_config(tape, ctx):
             subcwd = os.path.join(outdir, "subcwd")
             os.makedirs(subcwd)
             cmds = [
-                ([sys.executable, PY_SCRIPT, "--src", rel(py_src) + ";" + rel(sub_src), "--module_name", "mod",
+                ([sys.executable, PY_SCRIPT, "--src", ";".join([rel(py_src), rel(sub_src)] + [rel(q) for q in more_subs]),
+                  "--module_name", "mod",
                   "--out", rel(os.path.join(outdir, "mod.cpp")), "--top_module_namespaces", "", "--ignore",
                   "--template", rel(tpl), "--xml_source", ""] + (["--use-boost-serialization"] if boost else []),
                  cwd),
@@ -987,7 +992,69 @@ def run_config(tape, ctx):
         shutil.rmtree(tmp, ignore_errors=True)
 
 
+# ---------------------------------------------------------------------------
+# seeds batch: the same simulated build, executed sequentially in fresh interpreters that differ only
+# in PYTHONHASHSEED (the in-simulator batches all run under the harness's own hash seed)
+# ---------------------------------------------------------------------------
+def seq_digest_main():
+    """child side (fresh interpreter): tape record on stdin -> JSON {path: sha256} + task states on stdout"""
+    import json
+    values = json.load(sys.stdin)
+    tape = Tape(replay=values)
+    sc = gen_build(tape)
+    real_stdout = sys.stdout
+    W.install_seams()
+    _quiet()
+    w = _new_world(Tape(replay=[]), sc, with_stale=False)
+    for spec in sc["tasks"]:
+        w.add_task(_mk_task(spec, locale="utf-8"))
+    w.run()
+    out = {"files": {p: hashlib.sha256(d).hexdigest() for p, d in sorted(w.files.items())
+                     if p not in sc["inputs"]},
+           "states": {t.name: [t.state, (t.error or [""])[0]] for t in w.tasks}}
+    real_stdout.write(json.dumps(out, sort_keys=True) + "\n")
+    real_stdout.flush()
+
+
+def run_seeds(tape, ctx):
+    import json
+    sc = gen_build(tape)
+    record = list(tape.record)
+    seeds = tape.shuffle(["0", "1", "2", "3", "12345", "4294967295", "777"], "hashseeds")[:2 + tape.choose(2, "n-seeds")]
+    outs = []
+    for hs in seeds:
+        env = dict(os.environ)
+        env["PYTHONHASHSEED"] = hs
+        env["VERIF_NO_REEXEC"] = "1"
+        p = subprocess.run([sys.executable, os.path.join(os.path.dirname(os.path.dirname(os.path.abspath(__file__))),
+                                                         "run_check.py"), "C14", "--seq-digest"],
+                           input=json.dumps(record).encode(), capture_output=True, env=env, timeout=200)
+        if p.returncode != 0:
+            return {"harness": "seq-digest-child", "detail": p.stderr.decode("utf-8", "replace")[-1500:]}
+        outs.append(json.loads(p.stdout.decode().strip().splitlines()[-1]))
+    viol = []
+    for hs, o in zip(seeds[1:], outs[1:]):
+        if o != outs[0]:
+            diff = sorted(k for k in set(o["files"]) | set(outs[0]["files"])
+                          if o["files"].get(k) != outs[0]["files"].get(k))
+            kinds = sorted({sc_kind for d in diff for t in sc["tasks"] for sc_kind in [t["kind"]]
+                            if d in t.get("targets", []) or (t["kind"] == "ml" and _under(d, t["outdir"]))})
+            viol.append({"inv": "K2", "sig": "K2:hashseed:%s" % ("+".join(kinds) or "states"),
+                         "detail": "the same build under PYTHONHASHSEED=%s and =%s differs in %s (task states %s vs %s)"
+                                   % (seeds[0], hs, diff[:5], outs[0]["states"], o["states"])})
+            break
+    nsub = sum(1 for t in sc["tasks"] if t["kind"] == "py-sub")
+    digest = hashlib.sha256(repr((seeds, outs)).encode()).hexdigest()
+    return {"violations": viol, "digest": digest, "nontrivial": True,
+            "stats": {"seeds_runs": 1, "fresh_interpreters": len(seeds), "tasks": len(sc["tasks"])},
+            "faults": {}, "probes": {"hashseed_varied_build": 1, "hashseed_build_with_2plus_submodules": int(nsub >= 2)},
+            "steps": len(sc["tasks"]) * len(seeds),
+            "sample": {"hashseeds": seeds, "tasks": [" ".join(t["argv"])[:200] for t in sc["tasks"]]}}
+
+
 def run_one(batch, tape, ctx):
+    if batch == "seeds":
+        return run_seeds(tape, ctx)
     if batch == "build":
         return run_build(tape, ctx)
     if batch == "history":
